@@ -86,6 +86,10 @@ pub struct How {
     pub wrap: bool,
     /// put the (leaf) builder alone into a `CompoundBuilder`
     pub single_compound: bool,
+    /// take the owned variants of the API where one exists (`add_item_owned` / `into_owned` for SDES
+    /// items, `reason_owned` for BYE after the other fields were set, `native_data_owned` for RPSI)
+    #[serde(default)]
+    pub owned: bool,
 }
 
 pub trait Visit {
@@ -141,6 +145,19 @@ pub fn chunk<'a>(c: &'a ChunkSpec) -> SdesChunkBuilder<'a> {
     b
 }
 
+/// the same configuration through the owned variants of the SDES API
+pub fn sdes_owned(s: &SdesSpec) -> SdesBuilder<'static> {
+    let mut b = Sdes::builder().padding(s.padding);
+    for c in &s.chunks {
+        let mut cb = SdesChunk::builder(c.ssrc);
+        for (i, it) in c.items.iter().enumerate() {
+            cb = if i % 2 == 0 { cb.add_item_owned(item(it)) } else { cb.add_item(item(it).into_owned()) };
+        }
+        b = b.add_chunk(cb);
+    }
+    b
+}
+
 pub fn sdes<'a>(s: &'a SdesSpec) -> SdesBuilder<'a> {
     let mut b = Sdes::builder().padding(s.padding);
     for c in &s.chunks {
@@ -158,6 +175,18 @@ pub fn bye<'a>(s: &'a ByeSpec) -> ByeBuilder<'a> {
         b = b.reason(r.as_str());
     }
     b
+}
+
+/// `reason_owned` called last, after padding and sources were configured
+pub fn bye_owned(s: &ByeSpec) -> ByeBuilder<'static> {
+    let mut b = Bye::builder().padding(s.padding);
+    for x in &s.sources {
+        b = b.add_source(*x);
+    }
+    match &s.reason {
+        Some(r) => b.reason_owned(r.clone()),
+        None => b.reason_owned(String::new()).reason_owned(String::new()),
+    }
 }
 
 pub fn app<'a>(s: &'a AppSpec) -> AppBuilder<'a> {
@@ -209,7 +238,7 @@ pub fn fci<'a>(f: &'a FciSpec) -> FciHolder<'a> {
 pub fn fci_static(f: &FciSpec) -> FciHolder<'static> {
     match f {
         FciSpec::Rpsi { pt, data, overrun } => {
-            FciHolder::Rpsi(Rpsi::builder().payload_type(*pt).native_data(data.clone(), *overrun))
+            FciHolder::Rpsi(Rpsi::builder().payload_type(*pt).native_data_owned(&data[..], *overrun))
         }
         FciSpec::Nack(_) => match fci(f) {
             FciHolder::Nack(b) => FciHolder::Nack(b),
@@ -308,20 +337,18 @@ fn add_member<'a>(
                 cb.add_packet(rr(s))
             }
         }
-        PacketSpec::Sdes(s) => {
-            if how.wrap {
-                cb.add_packet(PacketBuilder::from(sdes(s)))
-            } else {
-                cb.add_packet(sdes(s))
-            }
-        }
-        PacketSpec::Bye(s) => {
-            if how.wrap {
-                cb.add_packet(PacketBuilder::from(bye(s)))
-            } else {
-                cb.add_packet(bye(s))
-            }
-        }
+        PacketSpec::Sdes(s) => match (how.owned, how.wrap) {
+            (false, true) => cb.add_packet(PacketBuilder::from(sdes(s))),
+            (false, false) => cb.add_packet(sdes(s)),
+            (true, true) => cb.add_packet(PacketBuilder::from(sdes_owned(s))),
+            (true, false) => cb.add_packet(sdes_owned(s)),
+        },
+        PacketSpec::Bye(s) => match (how.owned, how.wrap) {
+            (false, true) => cb.add_packet(PacketBuilder::from(bye(s))),
+            (false, false) => cb.add_packet(bye(s)),
+            (true, true) => cb.add_packet(PacketBuilder::from(bye_owned(s))),
+            (true, false) => cb.add_packet(bye_owned(s)),
+        },
         PacketSpec::App(s) => {
             if how.wrap {
                 cb.add_packet(PacketBuilder::from(app(s)))
@@ -396,20 +423,18 @@ pub fn with_writer<V: Visit>(p: &PacketSpec, how: How, v: V) -> V::Out {
                 v.go(&rr(s))
             }
         }
-        PacketSpec::Sdes(s) => {
-            if how.wrap {
-                v.go(&PacketBuilder::from(sdes(s)))
-            } else {
-                v.go(&sdes(s))
-            }
-        }
-        PacketSpec::Bye(s) => {
-            if how.wrap {
-                v.go(&PacketBuilder::from(bye(s)))
-            } else {
-                v.go(&bye(s))
-            }
-        }
+        PacketSpec::Sdes(s) => match (how.owned, how.wrap) {
+            (false, true) => v.go(&PacketBuilder::from(sdes(s))),
+            (false, false) => v.go(&sdes(s)),
+            (true, true) => v.go(&PacketBuilder::from(sdes_owned(s))),
+            (true, false) => v.go(&sdes_owned(s)),
+        },
+        PacketSpec::Bye(s) => match (how.owned, how.wrap) {
+            (false, true) => v.go(&PacketBuilder::from(bye(s))),
+            (false, false) => v.go(&bye(s)),
+            (true, true) => v.go(&PacketBuilder::from(bye_owned(s))),
+            (true, false) => v.go(&bye_owned(s)),
+        },
         PacketSpec::App(s) => {
             if how.wrap {
                 v.go(&PacketBuilder::from(app(s)))
